@@ -33,6 +33,8 @@ pub enum Kind {
     StateOnErr,
     /// final state differs though trace and outcome agree
     State,
+    /// Ok returned, but a state cell the transaction had to change does not hold the expected value
+    StateMissing,
     /// top-level response events differ
     RespEvents,
     /// top-level response data differs
@@ -97,7 +99,51 @@ fn diff_state(real: &MState, want: &MState) -> Value {
     json!(out)
 }
 
-pub fn compare(world: &World, prog: &Program, real: &RealOut, model: &ModelOut) -> Vec<Divergence> {
+/// Cells (contract key, registry field, balance, delegation) that the model changed relative to
+/// `start` and whose value in `real` is not the model's.
+fn missing_effects(start: &MState, want: &MState, real: &MState) -> Vec<String> {
+    let mut out = vec![];
+    for (a, wc) in &want.contracts {
+        let sc = start.contracts.get(a);
+        let rc = real.contracts.get(a);
+        if sc.map(|c| (c.code_id, &c.admin, &c.creator, &c.label)) != Some((wc.code_id, &wc.admin, &wc.creator, &wc.label)) && rc.map(|c| (c.code_id, &c.admin, &c.creator, &c.label)) != Some((wc.code_id, &wc.admin, &wc.creator, &wc.label)) {
+            out.push(format!("registry entry of {}", a));
+        }
+        let empty = Map::new();
+        let sstore = sc.map(|c| &c.store).unwrap_or(&empty);
+        let rstore = rc.map(|c| &c.store).unwrap_or(&empty);
+        for (k, v) in &wc.store {
+            if sstore.get(k) != Some(v) && rstore.get(k) != Some(v) {
+                out.push(format!("{}[{}]", a, crate::common::show(k)));
+            }
+        }
+        for k in sstore.keys() {
+            if !wc.store.contains_key(k) && rstore.contains_key(k) {
+                out.push(format!("{}[{}] not removed", a, crate::common::show(k)));
+            }
+        }
+    }
+    let addrs: std::collections::BTreeSet<&String> = want.bank.keys().chain(start.bank.keys()).collect();
+    for a in addrs {
+        let denoms: std::collections::BTreeSet<&String> = want.bank.get(a).into_iter().flat_map(|m| m.keys()).chain(start.bank.get(a).into_iter().flat_map(|m| m.keys())).collect();
+        for d in denoms {
+            let g = |st: &MState| st.bank.get(a).and_then(|m| m.get(d)).copied().unwrap_or(0);
+            if g(want) != g(start) && g(real) != g(want) {
+                out.push(format!("balance {} {}", a, d));
+            }
+        }
+    }
+    let keys: std::collections::BTreeSet<&(String, String)> = want.deleg.keys().chain(start.deleg.keys()).collect();
+    for k in keys {
+        let g = |st: &MState| st.deleg.get(k).copied().unwrap_or(0);
+        if g(want) != g(start) && g(real) != g(want) {
+            out.push(format!("delegation {:?}", k));
+        }
+    }
+    out
+}
+
+pub fn compare(world: &World, start: &MState, prog: &Program, real: &RealOut, model: &ModelOut) -> Vec<Divergence> {
     let mut out = vec![];
     if let Some(p) = &real.panicked {
         out.push(Divergence { kind: Kind::Panic, detail: json!({"panic": p}) });
@@ -177,6 +223,12 @@ pub fn compare(world: &World, prog: &Program, real: &RealOut, model: &ModelOut) 
     let want = observable(&model.st, &world.info.staking_module);
     if real.obs != want {
         out.push(Divergence { kind: Kind::State, detail: json!({"outcome": if real.result.is_ok() { "Ok" } else { "Err" }, "diff": diff_state(&real.obs, &want)}) });
+        if real.result.is_ok() {
+            let miss = missing_effects(&observable(start, &world.info.staking_module), &want, &real.obs);
+            if !miss.is_empty() {
+                out.push(Divergence { kind: Kind::StateMissing, detail: json!({"cells_not_holding_the_expected_value": miss, "diff": diff_state(&real.obs, &want)}) });
+            }
+        }
     }
     if let (Ok((rev, rdata)), Ok(m)) = (&real.result, &model.result) {
         match &prog.entry {
